@@ -426,6 +426,32 @@ def run_cursor(prog, ctx=None):
             if walkpos:
                 res.ob(key, True, f, n.get("l", 0), detail={"idiom": "position walk bounded by a search result over the same fragments (relational, accepted by shape)"})
                 continue
+            # (d) the step that takes the located fragment itself out of the list: the advance is dominated by the head of a
+            #     position walk (c) over the same cursor whose exit means "the position lies inside *cursor": that fragment exists
+            located = False
+            for pb in dom[b.id]:
+                if pb == b.id:
+                    continue
+                blk = f.blocks[pb]
+                c = strip(blk.term["cond"], all_casts=True) if blk.term and blk.term.get("cond") is not None else None
+                if c is None or not (c.get("k") == "bin" and c.get("op") in (">=", ">", "<", "<=")):
+                    continue
+                for side in (c["a"], c["b"]):
+                    r = strip(side, all_casts=True)
+                    if r.get("k") == "mem" and r.get("f") == "iov_len" and norm(show(strip(r["b"], all_casts=True), f)) == norm(show(tgt, f)):
+                        # the loop body is a position walk over this cursor
+                        for s2 in blk.succ:
+                            if s2 is None:
+                                continue
+                            for e2 in f.blocks[s2].el:
+                                for m in walk_own(e2):
+                                    if m.get("k") == "bin" and m.get("op") == "-=":
+                                        rr = strip(m["b"], all_casts=True)
+                                        if rr.get("k") == "mem" and rr.get("f") == "iov_len" and norm(show(strip(rr["b"], all_casts=True), f)) == norm(show(tgt, f)):
+                                            located = True
+            if located:
+                res.ob(key, True, f, n.get("l", 0), detail={"idiom": "step past the fragment a position walk over the same cursor stopped in (relational, accepted by shape)"})
+                continue
             if an is None:
                 an = Analysis(prog, f).run()
             # value of the count before the first element of this block that touches it
@@ -2259,4 +2285,167 @@ def run_indexstep(prog, ctx=None):
             ok = bad1 <= bad0
             res.ob("%s:%s" % (k.split(":", 1)[1], vname), ok, f, f.line,
                    "" if ok else "%s: a loop that indexes with `%s` and steps it once in its body now has a way round (a continue) that does not pass the step; in the reference tree every round took it" % (f.qn, vname))
+    return res
+
+
+def _iov_member(e, field):
+    """X of the expression X->field / X[i].field / (*X).field when field is an iovec member, else None"""
+    e = strip(e, all_casts=True)
+    if e.get("k") == "mem" and e.get("f") == field:
+        return e["b"]
+    return None
+
+
+def run_fraglocate(prog, ctx=None):
+    """FRAGLOCATE: a loop that turns an offset P into the fragment list into (fragment X, offset inside X) by
+    `while (P op X->iov_len) { P -= X->iov_len; ++X; }` ends with P inside X only when op is >=: P is the index of a byte
+    (found by a search over the list), and with > the loop stops one fragment early whenever that byte is the first of a
+    fragment, so P == X->iov_len addresses the byte behind X instead of the byte that was found."""
+    res = Result("FRAGLOCATE")
+    files = set(ctx.get("files", [])) if ctx else None
+    for f in funcs_of(prog, files):
+        loops = natural_loops(f)
+        for h, body in sorted(loops.items()):
+            blk = f.blocks[h]
+            cond = blk.term.get("cond") if blk.term else None
+            if cond is None:
+                continue
+            c = strip(cond, all_casts=True)
+            if not (c.get("k") == "bin" and c.get("op") in (">", ">=", "<", "<=")):
+                continue
+            a, b, op = strip(c["a"], all_casts=True), strip(c["b"], all_casts=True), c["op"]
+            if _iov_member(a, "iov_len") is not None and _iov_member(b, "iov_len") is None:
+                a, b = b, a
+                op = {"<": ">", "<=": ">=", ">": "<", ">=": "<="}[op]
+            xb = _iov_member(b, "iov_len")
+            if xb is None or a.get("k") != "ref" or "id" not in a["d"]:
+                continue
+            xs = strip(xb, all_casts=True)
+            if xs.get("k") != "ref" or "id" not in xs["d"]:
+                continue
+            pid, xid = a["d"]["id"], xs["d"]["id"]
+            reduced = stepped = False
+            for x in body:
+                for e in f.blocks[x].el:
+                    for n in walk_own(e):
+                        if n.get("k") == "bin" and n.get("op") == "-=":
+                            l = strip(n["a"], lvalue_to_rvalue=False)
+                            r = _iov_member(n["b"], "iov_len")
+                            if l.get("k") == "ref" and l["d"].get("id") == pid and r is not None:
+                                rs = strip(r, all_casts=True)
+                                if rs.get("k") == "ref" and rs["d"].get("id") == xid:
+                                    reduced = True
+                        if n.get("k") == "un" and n.get("op") == "++":
+                            l = strip(n["e"], lvalue_to_rvalue=False)
+                            if l.get("k") == "ref" and l["d"].get("id") == xid:
+                                stepped = True
+            if not (reduced and stepped) or op not in (">", ">="):
+                continue
+            ok = op == ">="
+            res.ob("%s:%s located in %s" % (f.qn, a["d"]["n"], xs["d"]["n"]), ok, f, c.get("l", f.line) or f.line,
+                   "" if ok else "`%s` leaves %s == %s->iov_len when the located byte is the first byte of a fragment: the loop stops one fragment early and %s addresses the byte behind %s" % (
+                       norm(show(c, f)), a["d"]["n"], xs["d"]["n"], a["d"]["n"], xs["d"]["n"]))
+    return res
+
+
+def run_fragadopt(prog, ctx=None):
+    """FRAGADOPT: a message is its base part followed by the `clen` fragments at `cont`.  Where a function makes a fragment of
+    the continuation list the new base part (M->base = X->iov_base [+ off], X being M->cont or a local walking from it), the
+    fragment leaves the list on every path to the exit: M->cont is stepped past X (++M->cont, M->cont = X + k, M->cont = ++X,
+    or X stepped and then stored).  A fragment that is base part and list member at once is read twice."""
+    res = Result("FRAGADOPT")
+    files = set(ctx.get("files", [])) if ctx else None
+
+    def is_cont_of(e, mid):
+        e = strip(e, all_casts=True)
+        if e.get("k") == "mem" and e.get("f") == "cont":
+            bb = strip(e["b"], all_casts=True)
+            return bb.get("k") == "ref" and bb["d"].get("id") == mid
+        return False
+
+    for f in funcs_of(prog, files):
+        sites = []
+        for b, i, n in f.walk_all():
+            if not (n.get("k") == "bin" and n.get("op") == "="):
+                continue
+            l = strip(n["a"], lvalue_to_rvalue=False)
+            if not (l.get("k") == "mem" and l.get("f") == "base"):
+                continue
+            m = strip(l["b"], all_casts=True)
+            if m.get("k") != "ref" or "id" not in m["d"] or "message" not in str(f.T(f.pointee(m.get("t")) if f.pointee(m.get("t")) is not None else m.get("t")).get("name", "")):
+                continue
+            mid = m["d"]["id"]
+            kind = None
+            for y in walk(n["b"]):
+                xb = _iov_member(y, "iov_base") if y.get("k") == "mem" else None
+                if xb is None:
+                    continue
+                src = strip(xb, all_casts=True)
+                if is_cont_of(src, mid):
+                    kind = ("member", None, "%s->cont" % m["d"]["n"])
+                elif src.get("k") == "ref" and "id" in src["d"] and f.T(src.get("t")).get("k") == "ptr":
+                    kind = ("local", src["d"]["id"], src["d"]["n"])
+            if kind is None:
+                continue
+            sites.append((b.id, i, n, m, kind))
+        for bid, idx, n, m, kind in sites:
+            mid = m["d"]["id"]
+            stepped_local = False
+
+            def passes(e):
+                """element e steps M->cont past X"""
+                for y in walk_own(e):
+                    if y.get("k") == "un" and y.get("op") == "++":
+                        t = strip(y["e"], lvalue_to_rvalue=False)
+                        if kind[0] == "member" and is_cont_of(t, mid):
+                            return True
+                    if y.get("k") == "bin" and y.get("op") in ("+=",) and is_cont_of(strip(y["a"], lvalue_to_rvalue=False), mid):
+                        if (cval(y["b"]) or 0) >= 1:
+                            return True
+                    if y.get("k") == "bin" and y.get("op") == "=" and is_cont_of(strip(y["a"], lvalue_to_rvalue=False), mid):
+                        r = strip(y["b"], all_casts=True)
+                        if r.get("k") == "bin" and r.get("op") == "+" and (cval(r["b"]) or 0) >= 1:
+                            ra = strip(r["a"], all_casts=True)
+                            if (kind[0] == "local" and ra.get("k") == "ref" and ra["d"].get("id") == kind[1]) or (kind[0] == "member" and is_cont_of(ra, mid)):
+                                return True
+                        if r.get("k") == "un" and r.get("op") == "++" and not r.get("post"):
+                            ra = strip(r["e"], lvalue_to_rvalue=False)
+                            if kind[0] == "local" and ra.get("k") == "ref" and ra["d"].get("id") == kind[1]:
+                                return True
+                        if kind[0] == "local" and r.get("k") == "ref" and r["d"].get("id") == kind[1] and stepped_local:
+                            return True
+                return False
+
+            # walk forward from the site; a path that reaches the exit without a passing element is a finding
+            bad = None
+            seen = set()
+            work = [(bid, idx + 1, False)]
+            while work and bad is None:
+                x, start, stepped_local = work.pop()
+                if (x, start, stepped_local) in seen:
+                    continue
+                seen.add((x, start, stepped_local))
+                blk = f.blocks[x]
+                done = False
+                for e in blk.el[start:]:
+                    if kind[0] == "local":
+                        for y in walk_own(e):
+                            if y.get("k") == "un" and y.get("op") == "++":
+                                t = strip(y["e"], lvalue_to_rvalue=False)
+                                if t.get("k") == "ref" and t["d"].get("id") == kind[1]:
+                                    stepped_local = True
+                    if passes(e):
+                        done = True
+                        break
+                if done:
+                    continue
+                succ = [s for s in blk.succ if s is not None]
+                if not succ:
+                    bad = x
+                for s in succ:
+                    work.append((s, 0, stepped_local))
+            ok = bad is None
+            res.ob("%s:%s adopted as base at line %s" % (f.qn, kind[2], n.get("l", f.line)), ok, f, n.get("l", f.line) or f.line,
+                   "" if ok else "`%s` makes the fragment at %s the base part, and a path reaches the end of %s without moving %s->cont past it: the fragment is base part and first continuation fragment at once, its bytes are read twice" % (
+                       norm(show(n, f))[:100], kind[2], f.name, m["d"]["n"]))
     return res
